@@ -4,6 +4,7 @@ Property theorems only (helper lemmas are private, above the theorem they serve)
 -/
 import Drand.Time
 import DrandProofs.C16Float
+import Gen.TimeCalls
 import Mathlib.Tactic.IntervalCases
 import Mathlib.Tactic.Linarith
 import Mathlib.Tactic.NormNum
@@ -195,6 +196,31 @@ theorem c16_time_of_round_exact (p : Nat) (g : Int) (round : Nat)
     unfold errorValue at hfit
     split <;> first | rfl | omega
 
+
+/-! ### tie: the rest of the code derives rounds and times only through the three functions of common/time.go -/
+
+/-- the HTTP layer's schedule is `time.Unix(common.TimeOfRound(...), 0)`, and the ticker, the handler, the sync manager
+and the DKG derive rounds/times through common.CurrentRound / NextRound / TimeOfRound only (regenerated call list) -/
+theorem tie_time_calls :
+    Gen.dateOfRoundBody = "return time.Unix(common.TimeOfRound(info.Period,info.GenesisTime,round),0)" ∧
+    Gen.timeCalls = [
+      ("handler/http:DrandHandler.Health", "CurrentRound"),
+      ("handler/http:dateOfRound", "TimeOfRound"),
+      ("internal/chain/beacon:Handler.Catchup", "NextRound"),
+      ("internal/chain/beacon:Handler.ProcessPartialBeacon", "NextRound"),
+      ("internal/chain/beacon:Handler.Start", "NextRound"),
+      ("internal/chain/beacon:Handler.Transition", "CurrentRound"),
+      ("internal/chain/beacon:Handler.Transition", "TimeOfRound"),
+      ("internal/chain/beacon:Handler.TransitionNewGroup", "CurrentRound"),
+      ("internal/chain/beacon:Handler.TransitionNewGroup", "TimeOfRound"),
+      ("internal/chain/beacon:SyncManager.tryNode", "CurrentRound"),
+      ("internal/chain/beacon:discrepancyStore.Put", "TimeOfRound"),
+      ("internal/chain/beacon:ticker.CurrentRound", "CurrentRound"),
+      ("internal/chain/beacon:ticker.Start", "CurrentRound"),
+      ("internal/chain/beacon:ticker.Start", "NextRound"),
+      ("internal/dkg:Process.startDKGExecution", "CurrentRound"),
+      ("internal/dkg:Process.startDKGExecution", "TimeOfRound")] := by
+  constructor <;> rfl
 
 /-! ### non-vacuity: concrete points of the domain -/
 example : timeOfRoundM 30 1595431050 1000 = 1595431050 + 999 * 30 := by decide
